@@ -19,5 +19,8 @@ Next ==
                      <<"MODEL DEFECT: an 'equivalent spelling' is not equivalent under AwkSem", cs.mech, j>>)
         /\ (~o.bad) => PrintT(ToJson([fam |-> cs.fam, mech |-> cs.mech, prog |-> cs.prog, variants |-> cs.variants,
                                       input |-> cs.input, expect |-> [out |-> o.out, status |-> o.status, err |-> o.err]]))
+        \* equivalence-only cases: no prediction, the spellings must agree with each other
+        /\ (o.bad /\ "equiv" \in DOMAIN cs) => PrintT(ToJson([fam |-> cs.fam, mech |-> cs.mech, prog |-> cs.prog, variants |-> cs.variants,
+                                      input |-> cs.input, equivonly |-> TRUE, expect |-> [out |-> <<>>, status |-> 0, err |-> FALSE]]))
 Spec == Init /\ [][Next]_vars
 =============================================================================
